@@ -58,10 +58,12 @@ CLAIMED["C01"] = dict(
 
 CLAIMED["C02"] = dict(
     text="Theorems (coq/Properties/C02.v): for the comparers (anchored adapters, indels disabled) every occurrence at the anchored end within the Hamming tolerance is reported with exactly its "
-    "distance, an error-free one is removed exactly, and no prefilter intervenes. PARTIAL: completeness of the banded DP (regular/non-internal/anywhere adapters, anchored with indels, "
-    "the three cut-position clauses) is not a theorem; it rests on the correspondence (model match_to_prefiltered = implementation match_to for all eight classes) and on oracle_C02 "
+    "distance, an error-free one is removed exactly, and no prefilter intervenes; for regular 5', regular 3' and 'anywhere' adapters with indels, an error-free copy of the whole adapter "
+    "anywhere in the read is always found by the aligner (C02_full_copy_found, C02_locate_full_copy: the DP cells on the diagonal of the copy are tracked exactly and cannot be cut off). "
+    "PARTIAL: completeness of the banded DP for occurrences with errors and for partial occurrences, non-internal adapters and anchored adapters with indels, the three cut-position "
+    "clauses, and that the k-mer prefilter lets such reads through, are not theorems; they rest on the correspondence (model match_to_prefiltered = implementation match_to for all eight classes) and on oracle_C02 "
     "(planted admissible occurrences verified by textbook distance, exhaustive enumeration of admissible interval quadruples in small scope, leftmost/rightmost exact-copy cut clauses) run against the implementation.",
-    technique="Coq proof (comparers) + extracted-model differential correspondence of prefiltered match_to; brute-force oracle search on the implementation",
+    technique="Coq proof (comparers; exact tracking of the diagonal of an error-free copy through the column fold of the Aligner.locate model) + extracted-model differential correspondence of prefiltered match_to; brute-force oracle search on the implementation",
     design="6/C02",
     note=TB + " thr[L] = int(L*rate) computed in CPython. Two genuine defects found by this check were repaired in /repo (fix: commits 68eb3cf, 579ddcc; see known_findings.json).",
 )
